@@ -93,7 +93,7 @@ fn dispatch_events_per_event_body(&mut self, sources_at_lookup: &SourceList<'l, 
             // C09/C15 (stated on the whole body, so that it holds for EVERY way out of it -- also an early end of the iteration
             // on a processing error): once a source has been processed, whatever it deferred has been taken out of the
             // loop-wide cell and the cell reset; nothing is carried over to a later event or another source
-            &&& crate::ext::cell_was_set(&old(self).handle.inner.pending_action, PostAction::Continue) /*@props C09,C15,C07,C02*/
+            &&& crate::ext::cell_was_set(&old(self).handle.inner.pending_action, PostAction::Continue)
             // C06: ... and if the source is gone from its slot when processing is over (it removed itself, returned
             // Remove, or the slot was reused meanwhile) it has been asked to unregister before the loop lets go of it
             &&& ((final(sources).lookup(event.token.inner.forget()) is None || final(sources)@[event.token.inner.forget().sid()].vacant()))
@@ -249,7 +249,7 @@ fn dispatch_events_per_event_body(&mut self, sources_at_lookup: &SourceList<'l, 
             // C09/C15 (stated on the whole body, so that it holds for EVERY way out of it -- also an early end of the iteration
             // on a processing error): once a source has been processed, whatever it deferred has been taken out of the
             // loop-wide cell and the cell reset; nothing is carried over to a later event or another source
-            &&& crate::ext::cell_was_set(&old(self).handle.inner.pending_action, PostAction::Continue) /*@props C09,C15,C07,C02*/
+            &&& crate::ext::cell_was_set(&old(self).handle.inner.pending_action, PostAction::Continue)
             // C06: ... and if the source is gone from its slot when processing is over (it removed itself, returned
             // Remove, or the slot was reused meanwhile) it has been asked to unregister before the loop lets go of it
             &&& ((final(sources).lookup(event.token.inner.forget()) is None || final(sources)@[event.token.inner.forget().sid()].vacant()))
